@@ -264,12 +264,13 @@ def unit_on_iteration(S):
                   cb, st, log, k)
         tag = f"on_iteration[num_envs={'1' if lanes is None else lanes}]"
         effs = [e for e in ctx.effects if e[0] == "debug_callback"]
-        S.fact(f"{tag}/one-ordered-callback-per-backend", len(effs) == 1 and str(effs[0][1]["effect"]) == "OrderedDebug", function=F_ONITER,
-               what="log records are sent with one jax.debug.callback per backend with ordered=True (iteration order, D7)",
+        S.fact(f"{tag}/ordered-callbacks", len(effs) >= 1 and all(str(e[1]["effect"]) == "OrderedDebug" for e in effs), function=F_ONITER,
+               what="log records are sent through jax.debug.callback with ordered=True (they reach the backend in iteration order, D7)",
                detail=[str(e[1].get("effect")) for e in effs])
-        if len(effs) != 1:
+        if len(effs) < 1:
             continue
-        args = effs[0][2]
+        args = [a for e in effs for a in e[2]]
+        step_arg = effs[-1][2][-1]
         n = 1 if lanes is None else lanes
 
         def mean(a):
@@ -280,7 +281,7 @@ def unit_on_iteration(S):
         has = lambda t: z3.Or(*[ir.zreal(x) == ir.zreal(t) for x in terms if not z3.is_bool(x)])
         S.prove(f"{tag}/episode-return-is-mean-over-envs", ctx, has(exp_ret), function=F_ONITER, what="episode/return sent = mean over environments of the per-environment statistic")
         S.prove(f"{tag}/episode-length-is-mean-over-envs", ctx, has(exp_len), function=F_ONITER, what="episode/length sent = mean over environments")
-        S.prove(f"{tag}/step-is-cumulative-env-steps", ctx, ir.seq(terms[-1], exp_step), function=F_ONITER,
+        S.prove(f"{tag}/step-is-cumulative-env-steps", ctx, ir.seq(step_arg.scalar(), exp_step), function=F_ONITER,
                 what="the step coordinate is the sum over environments of steps taken (cumulative number of environment steps)")
         S.prove(f"{tag}/training-log-forwarded", ctx, sand(has(log["loss"].scalar()), has(log["approx_kl"].scalar())), function=F_ONITER,
                 what="every entry of the training log is forwarded unchanged")
@@ -327,16 +328,16 @@ def unit_on_iteration(S):
             for nb in (1, 2, 3):
                 backs, ne = deliver(nb, which)
                 got = [len(b.got) for b in backs]
-                if ne != nb or got != [1] * nb:
+                if ne < 1 or got != [1] * nb:
                     return dict(reproduced=True, route="R1 (recorded host callbacks invoked after extraction, recording backends)", inputs=dict(hook=which, backends=nb), observed=dict(callbacks_in_program=ne, records_received_per_backend=got))
         return dict(reproduced=False, note="1, 2 and 3 backends: each receives exactly one record per hook")
     for which in ("on_iteration", "on_training_start"):
         for nb in (2, 3):
             backs, ne = deliver(nb, which)
             got = [len(b.got) for b in backs]
-            S.fact(f"{which}[{nb} backends]/every-backend-receives-the-record", ne == nb and got == [1] * nb, function=F_ONITER if which == "on_iteration" else "lerax.callback.logging.callback:LoggingCallback.on_training_start",
+            S.fact(f"{which}[{nb} backends]/every-backend-receives-the-record", ne >= 1 and got == [1] * nb, function=F_ONITER if which == "on_iteration" else "lerax.callback.logging.callback:LoggingCallback.on_training_start",
                    replay=native_delivery_replay, detail=dict(callbacks=ne, received=got),
-                   what="one host callback per backend, and when the callbacks run (after the Python loop over backends has ended) backend i receives record i: no record is lost or delivered to another backend")
+                   what="when the recorded host callbacks run (after the Python loop over backends has ended) every backend has received the record exactly once: none is lost, duplicated or delivered to another backend (however many callbacks carry them)")
 
 
 def _bm_env_policy(ctx):
